@@ -827,6 +827,13 @@ def check_bubbles(ctx, top):
         ast.unparse(dom_a) in ("Ty(*self.dom)", "self.dom.downgrade()") and ast.unparse(cod_a) in ("Ty(*self.cod)", "self.cod.downgrade()")
     ctx.ob("R20.9", MONQ + ".Bubble.downgrade", okb, found=ast.unparse(res), required="Bubble(self.inside.downgrade(), Ty(*self.dom), Ty(*self.cod)): the downgraded bubble keeps the declared domain and codomain "
            "(they may differ from those of the inside)", mod=MONQ, node=bd, sig="bubble-downgrade")
+    first = next((s for s in call.body if not (isinstance(s, ast.Expr) and isinstance(s.value, ast.Constant))), None)
+    okf = first is not None and shape.stmt_key(shape.rename(first, nm)) == shape.stmt_key(ast.parse("diagram = diagram.downgrade()").body[0])
+    ctx.ob("R20.9", MON + ".Diagram.open_bubbles:downgraded-first", okf, found=ast.unparse(first)[:80] if first is not None else None, required="`diagram = diagram.downgrade()` first: what is opened (and then drawn) is the plain "
+           "monoidal copy of the diagram", mod=MON, node=call, sig="bubbles-downgrade-first")
+    g0 = next((s for s in fn.body if isinstance(s, ast.If)), None)
+    ok0 = g0 is not None and shape.key(g0.test) == shape.key(shape.parse("not any((isinstance(box, Bubble) for box in self.boxes))")) and len(g0.body) == 1 and ast.unparse(g0.body[0]) == "return self.downgrade()"
+    ctx.ob("R20.9", MON + ".Diagram.open_bubbles:no-bubble", ok0, found=ast.unparse(g0)[:100] if g0 is not None else None, required="a diagram without bubbles is drawn as its plain monoidal copy", mod=MON, node=fn, sig="bubbles-none")
     xd = m.func(MONQ + ".Box.downgrade")
     ctx.analysed(MONQ + ".Box.downgrade")
     shape.match_stmts(ctx, "R20.9", MONQ + ".Box.downgrade", [s for s in shape.expand_tuple_assigns(xd.body) if isinstance(s, (ast.Assign, ast.Return))],
